@@ -155,7 +155,10 @@ impl Package {
                     }
                     std::os::unix::fs::symlink(&file.metadata.linkto, &file_path)?;
                 }
-                _ => unreachable!("Encountered an unknown or invalid FileMode"),
+                // the mode word comes from the package: other file types are an input error
+                FileMode::Invalid { raw_mode, reason } => {
+                    return Err(Error::InvalidFileMode { raw_mode, reason });
+                }
             }
         }
 
